@@ -9,17 +9,22 @@
 
    THE PROPERTY AT FULL STRENGTH is
        forall l : list action, exists f0, forall fuel, f0 <= fuel -> holds (settle fuel (run net0 l)) = true.
-   It is NOT proved in this generality.  What is PROVED is the single-break family, for every n and every
-   k <= n (induction; unbounded), in each direction separately: C07_single_break (A sends),
-   C07_single_break_B_to_A (B sends); and C07_repeated_breaks: the A -> B family followed by ANY NUMBER of
-   further breaks, each after the ResendRequest has been serviced and any number of the retransmissions got
-   through (induction on the list of breaks).  Before the D12 repair of _process_resend (journal rewind /
-   truncation while servicing a ResendRequest) the full statement was FALSE (two breaks with a resend reply in
-   flight lost messages for good); the former witnesses are now positive computed Examples
-   (C07_double_break_recovers, C07_gap_fill_lost_recovers).  General interleavings - both directions in
-   flight, events during the Logon exchange / the recovery, two or more breaks - are not proved; they are
-   explored by harness/c07.py (model BFS with exact state hashing + two real connection objects): no failing
-   state is known.  That is exploration, not proof. *)
+   It is NOT proved in this generality.  PROVED, each for all sizes (induction; the only bound is 64-bit numbers):
+     C07_single_break, C07_single_break_B_to_A   one break, traffic in one direction, last k in flight;
+     C07_single_break_both                       one break, both applications have sent (A's n, then B's m), the
+                                                 last ka of A's and the last kb of B's in flight, all ka, kb;
+     C07_repeated_breaks                         A -> B, then any number of further breaks during the retransmission;
+     C07_repeated_breaks_with_B_traffic          the same when B has sent too and all of B's messages had arrived;
+     C07_failed_write                            the link dies inside a send_msg (journaled, write raises);
+     C07_logon_cut_repaired, C07_logon_cut       the FIRST Logon exchange is cut at either moment, repaired, and
+                                                 then n messages are sent and delivered.
+   NOT proved, EXPLORED only (harness/c07.py: model BFS with exact state hashing + two real connection objects; no
+   failing state is known): sends whose order in time interleaves the two sides (payload naming), sends and
+   deliveries interleaved with the Logon exchange / the recovery, further breaks when BOTH ends miss messages,
+   further breaks on the B -> A side, breaks at other moments of a recovery.  That is exploration, not proof.
+   The model is the code with all repairs up to round 13 (before the D12 repair of _process_resend two breaks with a
+   resend reply in flight lost messages for good; the former witnesses are the positive Examples
+   C07_double_break_recovers, C07_gap_fill_lost_recovers). *)
 From Coq Require Import ZArith NArith List Bool.
 From AF Require Import Base.Sx Py.Str Fix.Session Fix.Net Lemmas.NetL.
 Import ListNotations.
@@ -63,6 +68,120 @@ Theorem C07_single_break_B_to_A : forall (n k fuel : nat),
   /\ holds s = true.
 Proof. exact single_break_m_nk. Qed.
 Print Assumptions C07_single_break_B_to_A.
+
+(* BOTH DIRECTIONS AT ONCE.  First Logon exchange; A's application sends n = da + ka messages (payloads m1 .. mn),
+   then B's application sends m = db + kb (payloads m(n+1) .. m(n+m)); the first da of A's reach B and the first db of
+   B's reach A; the link breaks with the last ka of A's AND the last kb of B's in flight.  Reconnect + Logon + drain:
+   when both ends miss something the Logon exchange carries two gaps, both ends send a ResendRequest, each services
+   the other's request while itself waiting for its own resend.  Conclusion: quiescent, both ACTIVE, next_in of each
+   = next_out of the other, B's application got exactly m1 .. mn and A's exactly m(n+1) .. m(n+m), once and in order.
+   For ALL da, ka, db, kb (four cases: nothing / only B / only A / both miss something).
+   The sends are in block order (all of A's, then all of B's): interleaving them differently in time changes only
+   which payload names each side uses (the names come from one shared counter), not the session-level behaviour;
+   that general naming is not covered by the theorem. *)
+Theorem C07_single_break_both : forall (da ka db kb fuel : nat),
+  Z.of_nat (da + ka) + 5 <= 9223372036854775807 -> Z.of_nat (db + kb) + 5 <= 9223372036854775807 ->
+  (ka + kb + 6 <= fuel)%nat ->
+  let n := (da + ka)%nat in
+  let m := (db + kb)%nat in
+  let schedule :=
+    ([AReconnect; ADeliver SB; ADeliver SA] ++ repeat (ASend SA) n ++ repeat (ASend SB) m
+     ++ repeat (ADeliver SB) da ++ repeat (ADeliver SA) db) ++ [ABreak] in
+  let s := settle fuel (run net0 schedule) in
+  quiescent s = true
+  /\ st (wa s) = ST_ACTIVE /\ st (wb s) = ST_ACTIVE
+  /\ nin (wa s) = nout (wb s) /\ nin (wb s) = nout (wa s)
+  /\ sa s = texts 1 n /\ gb s = map Some (texts 1 n)
+  /\ sb s = texts (1 + Z.of_nat n) m /\ ga s = map Some (texts (1 + Z.of_nat n) m)
+  /\ holds s = true.
+Proof. exact single_break_both. Qed.
+Print Assumptions C07_single_break_both.
+
+(* computed instance: A sends 3, B sends 2; two of A's and one of B's are in flight at the break *)
+Example C07_single_break_both_instance :
+  let s := settle 20 (run net0 (sched_before_both 1 2 1 1 ++ [ABreak])) in
+  holds s = true /\ gb s = map Some (texts 1 3) /\ ga s = map Some (texts 4 2)
+  /\ nin (wa s) = nout (wb s) /\ nin (wb s) = nout (wa s).
+Proof. exact both_instance. Qed.
+Print Assumptions C07_single_break_both_instance.
+
+(* BOTH APPLICATIONS HAVE SENT, THEN ANY NUMBER OF BREAKS (partial answer to "C07_single_break_both followed by
+   further breaks").  A sends n = da + k + 1, then B sends m = db; ALL of B's messages have reached A, the last
+   k + 1 of A's are in flight at the first break; then one further break per element of js as in
+   C07_repeated_breaks.  Conclusion as in C07_single_break_both.  NOT covered by a theorem: further breaks when A
+   misses messages of B as well (then both ends send a ResendRequest in every round and the journals of both ends
+   end in alternating Logon / ResendRequest rows; the general-position lemmas `recovery_both_*` handle one such
+   round, the step lemma and the induction over rounds for that shape are not done) - explored only. *)
+Theorem C07_repeated_breaks_with_B_traffic : forall (da k db : nat) (js : list nat) (fuel : nat),
+  fits (S k) js ->
+  Z.of_nat (da + S k) + 5 + 2 * Z.of_nat (length js) <= 9223372036854775807 ->
+  Z.of_nat db + 5 + 2 * Z.of_nat (length js) <= 9223372036854775807 ->
+  (S k + 4 <= fuel)%nat ->
+  let n := (da + S k)%nat in
+  let m := (db + 0)%nat in
+  let one_more_break (j : nat) :=
+    [ADeliver SB; ADeliver SA; ADeliver SA] ++ repeat (ADeliver SB) j ++ [ABreak; AReconnect] in
+  let schedule :=
+    ([AReconnect; ADeliver SB; ADeliver SA] ++ repeat (ASend SA) n ++ repeat (ASend SB) m
+     ++ repeat (ADeliver SB) da ++ repeat (ADeliver SA) db)
+    ++ [ABreak; AReconnect] ++ flat_map one_more_break js in
+  let s := drain fuel (run net0 schedule) in
+  quiescent s = true
+  /\ st (wa s) = ST_ACTIVE /\ st (wb s) = ST_ACTIVE
+  /\ nin (wa s) = nout (wb s) /\ nin (wb s) = nout (wa s)
+  /\ sa s = texts 1 n /\ gb s = map Some (texts 1 n)
+  /\ sb s = texts (1 + Z.of_nat n) m /\ ga s = map Some (texts (1 + Z.of_nat n) m)
+  /\ holds s = true.
+Proof. exact repeated_breaks_B_traffic. Qed.
+Print Assumptions C07_repeated_breaks_with_B_traffic.
+
+Example C07_repeated_breaks_with_B_traffic_instance :
+  let s := drain 20 (run net0 (sched_before_both 1 3 2 0 ++ [ABreak; AReconnect] ++ rounds [1; 0; 1]%nat)) in
+  holds s = true /\ gb s = map Some (texts 1 4) /\ ga s = map Some (texts 5 2)
+  /\ nin (wa s) = nout (wb s) /\ nin (wb s) = nout (wa s).
+Proof. exact repeated_breaks_B_traffic_instance. Qed.
+Print Assumptions C07_repeated_breaks_with_B_traffic_instance.
+
+(* A BREAK DURING THE FIRST LOGON EXCHANGE, before the session is established: with the initiator's Logon in flight
+   (i = 0: REC BRK) or with the acceptor's Logon reply in flight (i = 1: REC dB BRK; here B is already ACTIVE, A is
+   not).  Part 1: reconnect + Logon + drain (`settle`, any fuel >= 8) repairs it: both ends ACTIVE, numbers agree
+   (the lost Logon / Logon reply is gap-filled through a ResendRequest).  Part 2: for every n, after the cut and
+   the (explicitly scheduled) repair A's application sends n messages and all of them are delivered, once and in
+   order: the session is established and nothing is lost. *)
+Theorem C07_logon_cut_repaired : forall (i f : nat),
+  let s := settle (8 + f) (run net0 (cut_prefix i)) in
+  quiescent s = true /\ st (wa s) = ST_ACTIVE /\ st (wb s) = ST_ACTIVE
+  /\ nin (wa s) = nout (wb s) /\ nin (wb s) = nout (wa s) /\ holds s = true
+  /\ s = run net0 (sched_logon_cut i).
+Proof.
+  intros i f. cbv zeta. rewrite settle_cut, logon_cut_repaired. destruct i; vm_compute; repeat split.
+Qed.
+Print Assumptions C07_logon_cut_repaired.
+
+Theorem C07_logon_cut : forall (i n : nat),
+  Z.of_nat n + 6 <= 9223372036854775807 ->
+  let s := run net0 (sched_logon_cut i ++ repeat (ASend SA) n ++ repeat (ADeliver SB) n) in
+  quiescent s = true
+  /\ st (wa s) = ST_ACTIVE /\ st (wb s) = ST_ACTIVE
+  /\ nin (wa s) = nout (wb s) /\ nin (wb s) = nout (wa s)
+  /\ sa s = texts 1 n /\ gb s = map Some (texts 1 n) /\ sb s = [] /\ ga s = []
+  /\ holds s = true.
+Proof. exact logon_cut. Qed.
+Print Assumptions C07_logon_cut.
+
+(* the two cut schedules, and a computed instance (i = 1, n = 2) *)
+Example C07_logon_cut_schedules :
+  cut_prefix 0 = [AReconnect; ABreak] /\ cut_prefix 1 = [AReconnect; ADeliver SB; ABreak]
+  /\ sched_logon_cut 0 = [AReconnect; ABreak; AReconnect; ADeliver SB; ADeliver SA; ADeliver SA; ADeliver SB]
+  /\ sched_logon_cut 1 = [AReconnect; ADeliver SB; ABreak; AReconnect; ADeliver SB; ADeliver SA; ADeliver SB; ADeliver SA].
+Proof. repeat split. Qed.
+Print Assumptions C07_logon_cut_schedules.
+
+Example C07_logon_cut_instance :
+  let s := run net0 (sched_logon_cut 1 ++ repeat (ASend SA) 2 ++ repeat (ADeliver SB) 2) in
+  holds s = true /\ gb s = map Some (texts 1 2) /\ nin (wb s) = 6 /\ nout (wa s) = 6 /\ nin (wa s) = 3 /\ nout (wb s) = 3.
+Proof. exact logon_cut_instance. Qed.
+Print Assumptions C07_logon_cut_instance.
 
 (* A BREAK POINT INSIDE A SEND.  As C07_single_break (d delivered, k in flight), but the link dies while A's
    application is inside one more send_msg: the message has been journaled under its number (send_msg journals
